@@ -87,9 +87,9 @@ class FnLower:
         d = self.unwind_to(stop)
         if d:
             sv = self.tmp('_sv')
-            self.emit('{ int %s = vp_exc; vp_exc = 0;' % sv)
+            self.emit('{ int %s = vp_exc; vp_exc = 0; vp_unwinding++;' % sv)
             for s in d: self.emit('  ' + s)
-            self.emit('  vp_exc = %s; }' % sv)
+            self.emit('  vp_unwinding--; vp_exc = %s; }' % sv)
         if target is not None:
             self.emit('goto %s;' % self.scopes[target].handler)
         else:
@@ -1249,6 +1249,9 @@ class FnLower:
         if name == 'advance' and len(args) == 2 and L.deref_t(args[0]['type'])[0] == 'ptr':
             a, b = self.operands([('lv', args[0]), ('rv', args[1])])
             self.emit('%s = %s + (%s);' % (a, a, b)); return '', False
+        if name in ('uncaught_exception', 'uncaught_exceptions') and not args:
+            # true while destructors run because an exception is propagating (ghost counter kept by the unwinding blocks)
+            return ('(vp_unwinding > 0)' if name == 'uncaught_exception' else 'vp_unwinding'), False
         if name in ('abort', 'terminate'):
             self.emit('vp_abort();'); return '', False
         if name == 'get' and len(args) == 1:
